@@ -30,7 +30,7 @@ def sigma(i):
     m = 0x21 + 4 * i
     return [
         ('data', 1, [m]),
-        ('data', 1, [m, m + 1, m + 2]),
+        ('data', 1, [m, 0, m + 2]),          # an emitted zero byte is not a missing byte
         ('ldi', 'a', m),
         ('org', 12, None),
         ('org', 5, None),
